@@ -35,6 +35,11 @@ class CheckError(Exception):
     """the check could not be carried out at all (tool missing, I/O): exit 3, never VIOLATION"""
 
 
+class HarnessCrash(Exception):
+    """the harness (which never stops on the unchanged tree: every call into the code is inside
+    catch_unwind) stopped while driving the real code: the correspondence can no longer be established"""
+
+
 def sh(cmd, cwd=None, timeout=3600, stdin=None):
     p = subprocess.run(cmd, cwd=cwd, env=ENV, stdin=stdin, stdout=subprocess.PIPE,
                        stderr=subprocess.STDOUT, timeout=timeout, text=True, errors="replace")
@@ -255,7 +260,7 @@ def run_ops(stream, ops_path, wdir, tag):
     p = subprocess.run([HBIN, stream.component, "run", ops_path, annot, impl], env=ENV,
                        stdout=subprocess.DEVNULL, stderr=subprocess.PIPE, text=True, errors="replace")
     if p.returncode != 0:
-        raise CheckError(f"harness run failed ({stream.component}): {p.stderr[-500:]}")
+        raise HarnessCrash(f"the harness stopped while interpreting {os.path.basename(ops_path)} over the real code ({stream.component}): {p.stderr[-400:]}")
     with open(annot) as fin, open(model, "w") as fout:
         p = subprocess.run([DRIVER, stream.driver] + stream.driver_args, stdin=fin, stdout=fout,
                            stderr=subprocess.PIPE, text=True)
@@ -357,7 +362,7 @@ def still_fails(prop, stream, ops_lines, wdir, want_kind, want_clause):
         f.write("\n".join(ops_lines) + "\n")
     try:
         annot, impl, model, _ = run_ops(stream, p, wdir, "shrink")
-    except CheckError:
+    except (CheckError, HarnessCrash):
         return None
     c = new_collect()
     try:
